@@ -203,6 +203,30 @@ var earlyTable = []earlyT{
 	{"var x = /a/\ng = 1", "accept", "regexp_flags_detached", "7.8.5 / 7.9.1"},
 	{"x = /a/ g", "reject", "regexp_flags_detached", "7.8.5: flags follow the closing slash immediately"},
 	{"x = /a/g", "accept", "-", "7.8.5"},
+	// where a numeric literal token ends (7.8.3)
+	{"x = .5.toFixed(1)", "accept", "-", "7.8.3: the token .5 ends after its digits"},
+	{".125.toString()", "accept", "-", "7.8.3"},
+	{"x = .5.constructor", "accept", "-", "7.8.3"},
+	{"typeof .5.e1", "accept", "-", "7.8.3: .e1 is a property access"},
+	{"x = 5..toString()", "accept", "-", "7.8.3"},
+	{"x = 5.5.toFixed()", "accept", "-", "7.8.3"},
+	{"x = 0x1f.toString()", "accept", "-", "7.8.3"},
+	{"x = 010.toString()", "accept", "-", "B.1.1"},
+	{"x = 1e3.toString()", "accept", "-", "7.8.3"},
+	{"x = 5.toString()", "reject", "-", "7.8.3: 5. is the literal, toString follows a number"},
+	{"x = 5.5.5", "reject", "-", "7.8.3"},
+	{"x = .5.5", "reject", "-", "7.8.3"},
+	{"x = 1e", "reject", "-", "7.8.3"},
+	{"x = 1e+", "reject", "-", "7.8.3"},
+	{"x = 0x1g", "reject", "-", "7.8.3"},
+	{"x = 5in y", "reject", "-", "7.8.3"},
+	{"x = .5[0]", "accept", "-", "11.2.1"},
+	{"x = .5\n.toFixed(1)", "accept", "-", "7.8.3 / 7.9.1: no ASI before `.`"},
+	// 7.8.5: a RegularExpressionBackslashSequence does not contain a LineTerminator, inside a class either
+	{"x = /[\\\n]/", "reject", "regexp_class_backslash_newline", "7.8.5 RegularExpressionClassChar"},
+	{"x = /[a\\\r]/", "reject", "regexp_class_backslash_newline", "7.8.5"},
+	{"x = /a\\\n/", "reject", "-", "7.8.5"},
+	{"x = /[\\]]/", "accept", "-", "7.8.5"},
 	{"/a/gg", "reject", "-", "7.8.5 / 15.10.4.1: a flag may not repeat; the error is early"},
 	{"/a/x", "reject", "-", "15.10.4.1: only g, i, m"},
 	{"var side = 1; if (false) /a/gg; side", "reject", "-", "7.8.5: early error even in code that never runs"},
@@ -274,7 +298,32 @@ func implEarlyFn(f []string) (out string) {
 	return "accept"
 }
 
+// a sourceMappingURL comment in the last line, in every malformed shape, must never make a valid program fail
+var sourceMapTails = []string{
+	"//# sourceMappingURL=data:application/json",
+	"//# sourceMappingURL=data:application/json,",
+	"//# sourceMappingURL=data:application/json;base64",
+	"//# sourceMappingURL=data:application/json;base64,",
+	"//# sourceMappingURL=data:application/json;base64,!!!not-base64!!!",
+	"//# sourceMappingURL=data:application/json;base64,bm90IGpzb24=",
+	"//# sourceMappingURL=data:application/json;base64,e30=",
+	"//# sourceMappingURL=data:application/json;base64,eyJ2ZXJzaW9uIjo5OX0=",
+	"//# sourceMappingURL=data:application/json;base64,eyJ2ZXJzaW9uIjozLCJzb3VyY2VzIjpbXSwibmFtZXMiOltdLCJtYXBwaW5ncyI6IiEhISJ9",
+	"//# sourceMappingURL=data:application/json;base64,eyJ2ZXJzaW9uIjozLCJzb3VyY2VzIjpbImEuanMiXSwibmFtZXMiOltdLCJtYXBwaW5ncyI6IkFBQUEifQ==",
+	"//# sourceMappingURL=data:application/json;charset=utf-8;base64,e30=,e30=",
+	"//# sourceMappingURL=",
+	"//# sourceMappingURL=file.map",
+	"//# sourceMappingURL=data:application/json,{\"version\":3}",
+}
+
 func genEarly(c *h.Ctx) {
+	for _, prog := range []string{"var a = 1;", "x = 1\ny = 2", "function f(){ return 1 }\nf()", ""} {
+		for _, tail := range sourceMapTails {
+			for _, sep := range []string{"\n", "\n\n", " "} {
+				c.Add("early accept - x"+astx.Hex(prog+sep+tail), "early", "early:sourcemap-tail")
+			}
+		}
+	}
 	for _, set := range earlyFsTable {
 		c.Add("earlyfs accept - x"+astx.Hex(strings.Join(set, "\x00")), "earlyfs")
 	}
